@@ -31,6 +31,7 @@ type Case struct {
 	Inputs  map[string]interface{} `json:"inputs"`
 	Params  map[string]int         `json:"params"`
 	Known   map[string]bool        `json:"known"`
+	Scale   int                    `json:"scale"`
 }
 
 type AssertRec struct {
@@ -158,8 +159,15 @@ func inputBytes(name string, n int, alphabet string) []byte {
 	return out
 }
 
-func Bytes(name string, n int, alphabet string) []byte { return inputBytes(name, n, alphabet) }
-func Str(name string, n int, alphabet string) string   { return string(inputBytes(name, n, alphabet)) }
+// scaled repeats the input when the case asks for it (replay of counterexamples that need a payload beyond one inflate window)
+func scaled(b []byte) []byte {
+	if cur.c.Scale <= 1 || len(b) == 0 {
+		return b
+	}
+	return bytes.Repeat(b, cur.c.Scale)
+}
+func Bytes(name string, n int, alphabet string) []byte { return scaled(inputBytes(name, n, alphabet)) }
+func Str(name string, n int, alphabet string) string   { return string(scaled(inputBytes(name, n, alphabet))) }
 func Int(name string, lo, hi int) int {
 	if v, ok := cur.c.Inputs[name].(float64); ok {
 		return int(v)
